@@ -146,14 +146,17 @@ class Integrator(object):
     def compute_h_minimum(self):
         a_eval = self.acceleration_evals[0]
 
-        hmin = 1.0
+        hmin = np.inf
         for pa in a_eval.particle_arrays:
             if pa.gpu:
                 h = pa.gpu.get_device_array('h')
+                n = pa.gpu.get_number_of_particles()
             else:
                 h = pa.get_carray('h')
+                n = pa.get_number_of_particles()
 
-            if h.minimum < hmin:
+            # an empty array has no smoothing length (its cached minimum is 0)
+            if n > 0 and h.minimum < hmin:
                 hmin = h.minimum
 
         self.h_minimum = hmin
